@@ -220,6 +220,14 @@ class WebSocketReader:
                     WSCloseCode.PROTOCOL_ERROR,
                     "Continuation frame for non started message",
                 )
+            # previous frame was non finished
+            # we should get continuation opcode
+            if opcode != OP_CODE_CONTINUATION and self._opcode != OP_CODE_NOT_SET:
+                raise WebSocketError(
+                    WSCloseCode.PROTOCOL_ERROR,
+                    "The opcode in non-fin frame is expected "
+                    f"to be zero, got {opcode!r}",
+                )
 
             # load text/binary
             if not fin:
@@ -233,14 +241,6 @@ class WebSocketReader:
             if opcode == OP_CODE_CONTINUATION:
                 opcode = self._opcode
                 self._opcode = OP_CODE_NOT_SET
-            # previous frame was non finished
-            # we should get continuation opcode
-            elif has_partial:
-                raise WebSocketError(
-                    WSCloseCode.PROTOCOL_ERROR,
-                    "The opcode in non-fin frame is expected "
-                    f"to be zero, got {opcode!r}",
-                )
 
             assembled_payload: bytes | bytearray
             if has_partial:
